@@ -926,6 +926,18 @@ func (r *c13Rule) pipeNames() (hdrs, cooks map[string]bool) {
 	return hdrs, cooks
 }
 
+// what is handed over is what is read off the wire: optional white space around a header value does
+// not survive it (the decision service is served in-process, the Envoy value is what Envoy would put on
+// the wire); several lines of one header count as their ","-join
+func wireJoin(vs []string) string {
+	out := make([]string, len(vs))
+	for i, v := range vs {
+		out[i] = strings.Trim(v, " \t")
+	}
+
+	return strings.Join(out, ",")
+}
+
 func cutPair(s string) [2]string {
 	n, v, _ := strings.Cut(s, "=")
 
@@ -1014,7 +1026,7 @@ func c13ObserveDecision(app *assembly.HandlerApp, c c13Case) c13EObs {
 
 	for k, vs := range rec.Header() {
 		if hn[k] {
-			o.HO.Headers = append(o.HO.Headers, [2]string{k, strings.Join(vs, ",")})
+			o.HO.Headers = append(o.HO.Headers, [2]string{k, wireJoin(vs)})
 		}
 	}
 
@@ -1076,7 +1088,7 @@ func c13ObserveProxy(app *assembly.HandlerApp, up *assembly.Upstream, c c13Case)
 
 	for k, vs := range seen[0].Header {
 		if hn[k] {
-			o.HO.Headers = append(o.HO.Headers, [2]string{k, strings.Join(vs, ",")})
+			o.HO.Headers = append(o.HO.Headers, [2]string{k, wireJoin(vs)})
 		}
 	}
 
@@ -1150,7 +1162,7 @@ func c13ObserveEnvoy(app *assembly.EnvoyApp, c c13Case) c13EObs {
 				vs[i] = h.GetHeader().GetValue()
 			}
 
-			o.HO.Headers = append(o.HO.Headers, [2]string{k, strings.Join(vs, ",")})
+			o.HO.Headers = append(o.HO.Headers, [2]string{k, wireJoin(vs)})
 		}
 	}
 
@@ -1424,6 +1436,10 @@ func c13Corpus() ([]c13Rule, []c13Case) {
 			Steps: []c13Step{{If: &c13Cond{Q: q("cap", "a"), C: "abc"}, Items: []c13Item{{Name: "X-Out", Echo: pq("cap", "b")}}},
 				{If: &c13Cond{Q: q("hdr", "X-Role"), C: "admin"}, Items: []c13Item{{Name: "X-User", Const: "plain"}}}},
 			Probes: []c13Q{q("cap", "a"), q("cap", "b"), q("cap", "nope")}},
+		// 10: C13-F3b — a pipeline header set twice with blanks around a value (separate lines vs Envoy's join)
+		{ID: "c10", Path: "/c10/lit", Segs: []string{"lit:lit"},
+			Steps:  []c13Step{{Items: []c13Item{{Name: "X-Out", Const: " a "}}}, {Items: []c13Item{{Name: "x-out", Const: "b"}}}},
+			Probes: []c13Q{q("method", "")}},
 	}
 
 	rq := func(method, host, path, query string, tls bool, body string, kv ...string) c13Req {
@@ -1472,6 +1488,7 @@ func c13Corpus() ([]c13Rule, []c13Case) {
 		cs(9, cp("a", "abc", "b", "x%2Fy"), rq("GET", "a.example.com", "/c9/abc/x/x%2Fy", "", false, "", "X-Role", "admin")),
 		cs(9, cp("a", "abd", "b", "z"), rq("GET", "a.example.com", "/c9/abd/x/z", "", false, "", "x-role", "user")),
 		{Rule: nil, Hit: false, Req: rq("GET", "a.example.com", "/none/x", "", false, "")},
+		cs(10, nil, rq("GET", "a.example.com", "/c10/lit", "", false, "")),
 	}
 
 	return rules, cases
